@@ -679,20 +679,20 @@ func c16Flags(r *core.Run, p *core.Program) {
 	okDec := false
 	if bg != nil {
 		sn, gz := false, false
-		for _, c := range an.CallsTo(bg, false, "lib/others/snappy.Decode") {
-			for _, cc := range controlConds(c.Block()) {
-				if an.Atoms(cc.If.Cond)["field:lib/chain.oneBl.snappied"] && cc.Truth {
+		for _, cs := range ctlAcross(bg, "lib/others/snappy.Decode") {
+			for _, cc := range cs {
+				if cc.Atoms["field:lib/chain.oneBl.snappied"] && cc.Truth {
 					sn = true
 				}
 			}
 		}
-		for _, c := range an.CallsTo(bg, false, "compress/gzip.NewReader") {
+		for _, cs := range ctlAcross(bg, "compress/gzip.NewReader") {
 			comp, notSn := false, false
-			for _, cc := range controlConds(c.Block()) {
-				if an.Atoms(cc.If.Cond)["field:lib/chain.oneBl.compressed"] && cc.Truth {
+			for _, cc := range cs {
+				if cc.Atoms["field:lib/chain.oneBl.compressed"] && cc.Truth {
 					comp = true
 				}
-				if an.Atoms(cc.If.Cond)["field:lib/chain.oneBl.snappied"] && !cc.Truth {
+				if cc.Atoms["field:lib/chain.oneBl.snappied"] && !cc.Truth {
 					notSn = true
 				}
 			}
@@ -998,4 +998,55 @@ func c16RecordFromZero(r *core.Run, p *core.Program, rule string) {
 	}
 	r.Check(okAll, rule, key, p.Pos(wo.Pos()), "the record buffer outlives the call, but its flags byte is assigned before bits are OR-ed into it",
 		"the index record is assembled in "+clip(an.Expr(base), 60)+", which keeps its contents between calls, and flag bits are OR-ed into byte 0 without resetting it: flags of earlier records stick")
+}
+
+// ctlOutcome is one branch outcome that controls a call: the provenance atoms of its condition and the side taken.
+type ctlOutcome struct {
+	Atoms map[string]bool
+	Truth bool
+}
+
+// ctlAcross finds the calls of callee that fn makes itself or through small helpers of the module (two levels
+// of static calls) and lists, for each, the branch outcomes that control it - those in the helper, read with
+// the helper's parameters standing for the arguments passed, and those around the call of the helper.  A rule
+// stated as "X is called only under condition C" then survives the extraction of the X-calling lines into a
+// helper function that receives C's ingredients as arguments.
+func ctlAcross(fn *ssa.Function, callee string) [][]ctlOutcome {
+	var out [][]ctlOutcome
+	var visit func(f *ssa.Function, prefix []ctlOutcome, depth int)
+	ctlOf := func(b *ssa.BasicBlock) []ctlOutcome {
+		var cs []ctlOutcome
+		for _, cc := range controlConds(b) {
+			cs = append(cs, ctlOutcome{an.Atoms(cc.If.Cond), cc.Truth})
+		}
+		return cs
+	}
+	visit = func(f *ssa.Function, prefix []ctlOutcome, depth int) {
+		for _, c := range an.Calls(f, false) {
+			ins := c.(ssa.Instruction)
+			if an.IsCall(c, callee) {
+				out = append(out, append(append([]ctlOutcome{}, prefix...), ctlOf(ins.Block())...))
+				continue
+			}
+			g := an.StaticCallee(c)
+			if g == nil || depth >= 2 || !core.InModule(g) || g.Blocks == nil || len(g.Blocks) > 24 || g == f {
+				continue
+			}
+			if _, isGo := c.(*ssa.Go); isGo {
+				continue
+			}
+			args := c.Common().Args
+			if len(args) != len(g.Params) {
+				continue
+			}
+			sub := map[*ssa.Parameter]map[string]bool{}
+			for i, par := range g.Params {
+				sub[par] = an.Atoms(args[i])
+			}
+			here := append(append([]ctlOutcome{}, prefix...), ctlOf(ins.Block())...)
+			an.WithParamAtoms(sub, func() { visit(g, here, depth+1) })
+		}
+	}
+	visit(fn, nil, 0)
+	return out
 }
